@@ -72,6 +72,8 @@ class Profile:
         word_aligned_allocas=False,
         forbidden=(),
         long_block_pct=1,
+        constexpr_pct=0,
+        spin_cycle_pct=0,
     ):
         self.__dict__.update(locals())
         del self.__dict__["self"]
@@ -458,6 +460,8 @@ class _FuncGen:
         fn = {"name": self.name, "params": params, "ret": ret, "bufs": bufs, "tailrec": bool(tailrec), "blocks": blocks}
         if tailrec:
             self.wrap_tailrec(fn)
+        if prof.spin_cycle_pct and "i32" in self.types and self.chance(prof.spin_cycle_pct):
+            self.add_spin_cycle(fn)
         order = list(range(len(fn["blocks"])))
         if prof.permute_blocks and len(order) > 2 and self.chance(50):
             rest = draw(st.permutations(order[1:]))
@@ -586,12 +590,78 @@ class _FuncGen:
         if self.prof.observe:
             self.observe(u, ty, pool, out)
 
+    def gen_constexpr_idiom(self, pool, out, define):
+        """v = ((c0 op c1) op c2) ... over fresh constants only (what a constant folder evaluates at compile time), with an
+        occasional cast in between; the generator tracks the concrete value so that divisors, MIN / -1 and shift counts stay
+        defined.  Wide types and operands beyond 2**53 (not exactly representable as a double) are preferred."""
+        from . import irsem
+
+        prof = self.prof
+        ints = [t for t in self.types if not is_float(t)]
+        if not ints:
+            return
+        wide = [t for t in ints if BITS[t] == 64]
+        ty = self.pick(wide) if wide and self.chance(50) else self.pick(ints)
+
+        def big_const(t):
+            lo, hi = int_range(t)
+            if BITS[t] == 64 and self.chance(50):
+                v = self.draw(st.one_of(st.integers(2**53, hi), st.sampled_from([hi, hi - 1, hi - 2, 2**53 + 1, 2**62 + 3, 10**18 + 7])))
+                return -v if lo < 0 and self.chance(30) else v
+            return self.draw(int_consts(t))
+
+        val = big_const(ty)
+        cur = self.new_const(ty, pool, out, val)
+        for _ in range(self.draw(st.integers(1, 3))):
+            if self.chance(15):
+                dty = self.pick(ints)
+                if dty != ty and prof.allowed("cast", ty, dty):
+                    n = self.fresh()
+                    out.append(["cast", n, dty, cur])
+                    define(n, dty)
+                    val = irsem.norm_int(val, BITS[dty], is_signed(dty))
+                    cur, ty = n, dty
+                    continue
+            ops = [o for o in INT_OPS + (ROT_OPS if prof.rotates else []) if prof.allowed("binop", ty, o)]
+            if not ops:
+                return
+            op = self.pick(["/", "%"]) if self.chance(40) and "/" in ops and "%" in ops else self.pick(ops)
+            lo, hi = int_range(ty)
+            bits, sg = BITS[ty], is_signed(ty)
+            if op in ("<<", ">>", "rol", "ror"):
+                c = self.pick([0, 1, 2, 3, bits // 2, bits - 1, bits - 2])
+            elif op in ("/", "%"):
+                c = self.pick([x for x in (1, 2, 3, 5, 7, 10, 16, 1000, hi, hi - 1, -1, -2, -3, -7, -10, lo) if lo <= x <= hi and x != 0]) if self.chance(70) else big_const(ty)
+                if c == 0 or (sg and val == lo and c == -1):
+                    c = 3
+            else:
+                c = big_const(ty)
+            cn = self.new_const(ty, pool, out, c)
+            swap = op not in ("<<", ">>", "rol", "ror") and self.chance(25)
+            a, b, av, bv = (cn, cur, c, val) if swap else (cur, cn, val, c)
+            try:
+                res = irsem.int_binop(op, av, bv, bits, sg)
+            except irsem.Undef:
+                a, b, av, bv = cur, cn, val, c
+                try:
+                    res = irsem.int_binop(op, av, bv, bits, sg)
+                except irsem.Undef:
+                    return
+            n = self.fresh()
+            out.append(["binop", n, ty, a, op, b])
+            define(n, ty)
+            cur, val = n, res
+        if prof.observe:
+            self.observe(cur, ty, pool, out)
+
     def gen_instruction(self, pool, out, define):
         draw, prof = self.draw, self.prof
         if prof.late_allocs and self.chance(5):
             return self.gen_alloca(pool, out, define)
         if prof.indirect_boost and self.mod.functions and self.chance(prof.indirect_boost):
             return self.gen_fptr_idiom(pool, out, define)
+        if prof.constexpr_pct and self.chance(prof.constexpr_pct):
+            return self.gen_constexpr_idiom(pool, out, define)
         r = draw(st.integers(0, 109))
         if r >= 105:
             return self.gen_mem_idiom(pool, out, define)
@@ -892,6 +962,23 @@ class _FuncGen:
                 # a direct jump to the join block
                 yes, no = no, yes
             out.append(["cjmp", a, self.pick(CONDS), c, yes, no])
+
+    def add_spin_cycle(self, fn):
+        """P: jmp T  ==>  P: fu = load fuel; cjmp fu < -1000000 ? S0 : T;   S0 -> S1 [-> S2] -> S0, all jump-only blocks
+        ('for (;;) ;' as the C front end emits it).  The cycle is reachable for every analysis but never entered at run
+        time (the fuel counter is never that negative), so executions stay comparable."""
+        cands = [b for b in fn["blocks"] if b["ins"] and b["ins"][-1][0] == "jmp"]
+        if not cands:
+            return
+        blk = self.pick(cands)
+        target = blk["ins"][-1][1]
+        k = self.pick([1, 2, 2, 2, 3, 3, 4])
+        names = ["%s_s%d" % (self.name, i) for i in range(k)]
+        fuel = self.mod.fuel_global()
+        fu, neg = self.fresh("fu"), self.fresh("c")
+        blk["ins"] = blk["ins"][:-1] + [["load", fu, "i32", fuel, False], ["const", neg, "i32", -1000000], ["cjmp", fu, "<", neg, names[0], target]]
+        for i in range(k):
+            fn["blocks"].append({"name": names[i], "ins": [["jmp", names[(i + 1) % k]]]})
 
     def wrap_tailrec(self, fn):
         """entry: n <= 0 ? base : body ... last block: r = call self(n-1, ...); return r"""
